@@ -353,7 +353,9 @@ def main():
             "theorems": thms, "nonvacuity_examples": examples,
             "axioms": axioms,
             "supporting_lemmas": count_lemmas(cfg),
-            "evaluations": meta.get("cases", 0),
+            # executions on the real code: cases (programs / histories / pools), or the finer-grained
+            # oracle applications the harness counted; never fewer than the distinct cases it counted
+            "evaluations": max(meta.get("cases", 0), meta.get("direct_checks", 0) or 0, meta.get("distinct_nontrivial", 0)),
             "distinct_nontrivial": meta.get("distinct_nontrivial", 0),
             "rule": meta.get("rule", ""),
             "samples": meta.get("samples") or [],
